@@ -277,9 +277,11 @@ def rule_r3(chk, facts):
                 chk.ob('C04-R3', key, True, f.loc(ln), 'listed')
                 continue
             ok, w = f.guarded(b, i, lambda l: False, flushes)
-            if not ok and f.name in ('WrRecHeader', 'WrPatches'):
-                # helpers of NewRecord: every call site is preceded by the flush
-                ok = all(g.guarded(b2, i2, lambda l: False, flushes)[0] for (g, b2, i2, l2, n2, d2) in call_sites(P, f))
+            if not ok and f.static:
+                # a static helper of the module: every call site is preceded by the flush (RetractWords, listed above,
+                # accounts for the buffer itself)
+                cs = list(call_sites(P, f))
+                ok = bool(cs) and all(g.name == 'RetractWords' or g.guarded(b2, i2, lambda l: False, flushes)[0] for (g, b2, i2, l2, n2, d2) in cs)
             chk.ob('C04-R3', key, ok, f.loc(ln), 'buffer flushed first' if ok else
                    '%s on the code file with unflushed bytes possibly in the write buffer: the record length is patched '
                    'at the wrong offset; path %s' % (callee_name(n), ' '.join(w[-5:])))
